@@ -44,7 +44,8 @@ struct K {
   int last_sem[MAXT], last_shm[MAXT]; bool last_shm_created[MAXT] = {false}; bool last_sem_created[MAXT] = {false}; size_t last_shm_size_at_open[MAXT] = {0}; long last_fstat_size[MAXT] = {0};
   std::string last_sem_name[MAXT], last_shm_name[MAXT];
   Net *net = nullptr;
-  int files_open = 0, dirs_open = 0, libs_open = 0, addrinfo_open = 0;
+  int files_open = 0, dirs_open = 0, libs_open = 0, addrinfo_open = 0, modules_left = 0;
+  std::map<void *, std::string> lib_path; std::map<std::string, int> lib_refs; std::map<std::string, bool> lib_foreign;
   int faults_off = 0;          // >0 while a scripted raw peer talks to the kernel: no fault injection into its calls
   int default_sndbuf = 65536, default_rcvbuf = 65536; bool net_faults = false;
   K() { for (int i = 0; i < MAXT; i++) { last_sem[i] = -1; last_shm[i] = -1; } }
